@@ -8,6 +8,7 @@ import (
 	"strings"
 
 	"github.com/cosmos/cosmos-proto/internal/testprotos/test3"
+	"github.com/cosmos/cosmos-proto/internal/verifsim/rndcorpus"
 	"github.com/cosmos/cosmos-proto/internal/verifsim/shapes"
 	"github.com/cosmos/cosmos-proto/internal/verifsim/simrun"
 	"github.com/cosmos/cosmos-proto/testpb"
@@ -52,6 +53,7 @@ func newRaceReports() string {
 func main() {
 	e := &simrun.Engine{Name: "B-tasks"}
 	e.Init = func(p map[string]string) error {
+		corpus = append(corpus, rndcorpus.Messages...)
 		if gr := os.Getenv("GORACE"); strings.Contains(gr, "log_path=") {
 			for _, kv := range strings.Fields(gr) {
 				if strings.HasPrefix(kv, "log_path=") {
